@@ -347,11 +347,15 @@ func fieldOfAddr(addr ssa.Value) (base ssa.Value, f *types.Var, ok bool) {
 // fieldLoad: v = base.f (through a pointer or a struct value)
 func fieldLoad(v ssa.Value) (base ssa.Value, f *types.Var, ok bool) {
 	if a, ok := loadAddr(v); ok {
-		return fieldOfAddr(a)
+		b, fv, ok2 := fieldOfAddr(a)
+		if ok2 {
+			b = rv(b)
+		}
+		return b, fv, ok2
 	}
 	if fl, ok := v.(*ssa.Field); ok {
 		st := fl.X.Type().Underlying().(*types.Struct)
-		return fl.X, st.Field(fl.Field), true
+		return rv(fl.X), st.Field(fl.Field), true
 	}
 	return nil, nil, false
 }
@@ -393,6 +397,17 @@ func fieldPath(v ssa.Value) (root ssa.Value, path []string) {
 // ---------------------------------------------------------------------------
 // conditions
 
+// curResolver maps values of a helper being looked into (parameters) to the caller's values
+// while a predicate helper is examined on behalf of a caller's guard (see predEstablishes).
+var curResolver func(ssa.Value) ssa.Value
+
+func rv(v ssa.Value) ssa.Value {
+	if curResolver != nil && v != nil {
+		return curResolver(v)
+	}
+	return v
+}
+
 // normCond strips boolean negations.
 func normCond(v ssa.Value) (core ssa.Value, neg bool) {
 	for {
@@ -418,7 +433,8 @@ func GEq(mx, my func(ssa.Value) bool) Guard {
 		if !ok || (b.Op != token.EQL && b.Op != token.NEQ) {
 			return false
 		}
-		if !((mx(b.X) && my(b.Y)) || (mx(b.Y) && my(b.X))) {
+		bx, by := rv(b.X), rv(b.Y)
+		if !((mx(bx) && my(by)) || (mx(by) && my(bx))) {
 			return false
 		}
 		eqOnTrue := (b.Op == token.EQL) != neg
@@ -436,7 +452,7 @@ func GNeq(mx, my func(ssa.Value) bool) Guard {
 func GTrue(m func(ssa.Value) bool) Guard {
 	return func(cond ssa.Value, branch bool) bool {
 		core, neg := normCond(cond)
-		if !m(core) {
+		if !m(rv(core)) && !m(core) {
 			return false
 		}
 		return branch != neg
@@ -476,7 +492,7 @@ func GCmp(f func(x ssa.Value, op token.Token, y ssa.Value) bool) Guard {
 				return false
 			}
 		}
-		return f(b.X, op, b.Y)
+		return f(rv(b.X), op, rv(b.Y))
 	}
 }
 
@@ -493,6 +509,7 @@ func GOr(gs ...Guard) Guard {
 
 func isVal(want ssa.Value) func(ssa.Value) bool {
 	return func(v ssa.Value) bool {
+		v = rv(v)
 		return v == want || strip(v) == want || unspill(v) == want || strip(unspill(v)) == want
 	}
 }
@@ -627,8 +644,8 @@ func reachFromAvoiding(fn *ssa.Function, start, target *ssa.BasicBlock, g Guard)
 				if cb, ok := constBool(ifi.Cond); ok && cb != branch {
 					continue
 				}
-				if g != nil && g(ifi.Cond, branch) {
-					continue // edge establishes G: cut
+				if g != nil && (g(ifi.Cond, branch) || predEstablishes(ifi.Cond, branch, g, 0)) {
+					continue // edge establishes G (directly, or through a first-party predicate helper): cut
 				}
 			}
 			n := st{succ, s.b}
@@ -1012,4 +1029,97 @@ func blockNeverReturns(b *ssa.BasicBlock) bool {
 		}
 	}
 	return false
+}
+
+// predEstablishes: the branch condition is (the negation of) a call to a first-party
+// boolean helper, and inside that helper every return yielding the truth value taken on
+// this edge lies behind an edge establishing g (values of the helper are mapped to the
+// caller's through curResolver). Makes predicate extraction (inList, sessionMatches,
+// openIDOnly) transparent to the guard rules.
+func predEstablishes(cond ssa.Value, branch bool, g Guard, depth int) bool {
+	if depth > 2 {
+		return false
+	}
+	core, neg := normCond(cond)
+	call, ok := core.(*ssa.Call)
+	if !ok {
+		return false
+	}
+	callee := call.Call.StaticCallee()
+	if callee == nil || !IsFirstParty(callee) || callee.Blocks == nil {
+		return false
+	}
+	if b, ok := callee.Signature.Results().At(0).Type().Underlying().(*types.Basic); !ok || callee.Signature.Results().Len() != 1 || b.Kind() != types.Bool {
+		return false
+	}
+	want := branch != neg
+	outer := curResolver
+	args := call.Call.Args
+	curResolver = func(v ssa.Value) ssa.Value {
+		if p, ok := v.(*ssa.Parameter); ok && p.Parent() == callee {
+			for i, q := range callee.Params {
+				if q == p && i < len(args) {
+					v = args[i]
+					if outer != nil {
+						return outer(v)
+					}
+					return v
+				}
+			}
+		}
+		if outer != nil {
+			return outer(v)
+		}
+		return v
+	}
+	defer func() { curResolver = outer }()
+	edgeOK := func(p *ssa.BasicBlock, to *ssa.BasicBlock) bool {
+		// the path to p passes g, or the edge p->to itself establishes g
+		if n := len(p.Instrs); n > 0 {
+			if ifi, ok := p.Instrs[n-1].(*ssa.If); ok {
+				for i, s := range p.Succs {
+					if s == to && (g(ifi.Cond, i == 0) || predEstablishes(ifi.Cond, i == 0, g, depth+1)) {
+						return true
+					}
+				}
+			}
+			if r, _ := reachAvoiding(callee, p, g); !r {
+				return true
+			}
+		}
+		return false
+	}
+	for _, r := range returnsOf(callee) {
+		v := r.Results[0]
+		if bv, isC := constBool(v); isC {
+			if bv != want {
+				continue
+			}
+			if reach, _ := reachAvoiding(callee, r.Block(), g); reach {
+				return false
+			}
+			continue
+		}
+		if phi, isPhi := v.(*ssa.Phi); isPhi {
+			for i, e := range phi.Edges {
+				if bv, isC := constBool(e); isC && bv != want {
+					continue
+				}
+				if _, isC := constBool(e); !isC && (g(e, want) || predEstablishes(e, want, g, depth+1)) {
+					continue
+				}
+				if !edgeOK(phi.Block().Preds[i], phi.Block()) {
+					return false
+				}
+			}
+			continue
+		}
+		if g(v, want) || predEstablishes(v, want, g, depth+1) {
+			continue
+		}
+		if reach, _ := reachAvoiding(callee, r.Block(), g); reach {
+			return false
+		}
+	}
+	return true
 }
